@@ -79,4 +79,14 @@ def serveNonRead : Role → NonRead
 def setsCookie (r : Req) (passthrough : Bool) (hasDB : Bool) : Bool :=
   !passthrough && !isReadMethod r.method && hasDB
 
+/-- `proxyToTarget`'s response headers: the proxy's own headers so far (the TXID cookie, if it set
+    one, as a `Set-Cookie` value) followed by every header value of the application's response,
+    *added* to the values already there (`w.Header().Add`) -/
+def responseHeaders (own : List (String × String)) (app : List (String × String)) : List (String × String) :=
+  own ++ app
+
+/-- the `Set-Cookie` values a client receives -/
+def setCookies (hs : List (String × String)) : List String :=
+  (hs.filter (·.1 == "Set-Cookie")).map (·.2)
+
 end LiteFSVerif.Proxy
